@@ -173,6 +173,10 @@ def check(facts, rep, tier, cfg):
                     "calls never fail" % (bool(val), sorted(toks)))
         else:
             rep.ok("C08.R6", "no-blocking-queue-in-wind-down/%s" % label, where, "no await on the Bind / per-stream / datagram queues during wind-down")
+    # ---- R8 the accept queue is the one bounded queue the dispatcher may await in the wind-down; it is unreachable there only because
+    #         the handshake Acknowledge is queued first and its failure (outbound queue closed) is propagated
+    import rules_c07 as _c07
+    _c07.check_handoff(facts, rep, crate, "C08.R8")
     # ---- entry: select arms and flag values
     entry = None
     idxc = Inter(facts).call_index()
